@@ -43,6 +43,7 @@ EXTENDS DateOps, TLC, Json, IOUtils, SequencesExt
 
 CONSTANTS Depth,      \* number of operations after the start of the process
           Wide,       \* TRUE: wide parameter sets (use with Depth = 1)
+          Thin,       \* histories of three operations: every Thin-th one is exported
           Export
 
 VARIABLES zone, live, cn, cs, hist, cnt
@@ -105,6 +106,9 @@ Parse   == \E p \in Pos, s \in Secs :
              LET f == ParseFmt(p, s) IN
              Become(Num(p), IF f = 1 THEN 0 ELSE s, Op("parse", None, 0, TextOf(p[1], p[2], p[3]), f, s))
 
+\* parse_date of a time alone: the date is 1970-01-01 whatever the zone
+ParseTime == \E s \in Secs : Become(DayNumber(1970, 1, 1), s, Op("parse", None, 0, TextOf(1970, 1, 1), 5, s))
+
 ApiDate == Bare /\ \E p \in Pos, s \in Secs \cup {0} : Keep(Op("api_date", None, 0, Num(p), s, 0))
 ApiNum  == Bare /\ \E p \in Pos, s \in Secs \cup {0} : Keep(Op("api_num", p, s, 0, 0, 0))
 
@@ -136,7 +140,7 @@ Place == /\ Wide /\ cnt = 0 /\ hist = <<>>
               /\ live' = TRUE /\ cn' = Num(p) /\ cs' = s
               /\ UNCHANGED <<zone, cnt>>
 
-Next == Place \/ New \/ DateInt \/ DateDec \/ Parse \/ ApiDate \/ ApiNum \/ Reader
+Next == Place \/ New \/ DateInt \/ DateDec \/ Parse \/ ParseTime \/ ApiDate \/ ApiNum \/ Reader
         \/ Add \/ Sub \/ Valid \/ Err \/ Free \/ Tz
 
 Spec == Init /\ [][Next]_vars
@@ -184,10 +188,12 @@ ArithMoves ==
           /\ cs' = cs]_vars
 
 \* the zone the process is started in: spread over the zones by the history
-StartZone == 1 + (FoldLeft(LAMBDA acc, o : acc + o.k + o.a + o.d + o.s + o.t, Len(hist), hist) % NZones)
+Mix == FoldLeft(LAMBDA acc, o : acc + o.k + o.a + o.d + o.s + o.t, Len(hist), hist)
+StartZone == 1 + (Mix % NZones)
 
 ExportHist ==
-  (cnt >= 1) => Emit("HIST", [z |-> StartZone, n |-> cnt, ops |-> hist])
+  (cnt >= 1 /\ (cnt < 3 \/ (Mix \div NZones) % Thin = 0)) =>
+     Emit("HIST", [z |-> StartZone, n |-> cnt, ops |-> hist])
 
 \* ---- the environment, exported once ---------------------------------------
 HazardYears == {1900, 1969, 1970, 1971, 1999, 2000, 2021, 2024, 2037, 2038, 2100, 2400, 9999}
